@@ -540,8 +540,11 @@ def judge(workload, out):
         else:
             allowed.add(want)
         allowed |= alt.get(mk, set())
-        if want == "dead" and sum(1 for v in state.values() if v == "dead") > 2:
-            allowed.add("absent")      # dlq_retention max_depth 2: the oldest dead messages beyond the cap are removed by the prune
+        # dlq_retention max_depth 2: the oldest dead messages beyond the cap are removed by the prune.  A dead-letter call that was in flight
+        # when the process died may have taken effect without being acknowledged: it counts towards the cap
+        maybe_dead = 1 if (inflight is not None and inflight[1]["op"] in ("dead", "stalebatch")) else 0
+        if want == "dead" and sum(1 for v in state.values() if v == "dead") + maybe_dead > 2:
+            allowed.add("absent")
         if "leased" in allowed:
             allowed.add("queued")      # a lease that expired before the listing is back in the queue: same promise
         if obs not in allowed:
@@ -751,8 +754,10 @@ def main(ctx, replay):
             for mk, stt in mstate.items():
                 o = obs.get(mk, "absent")
                 ok = (o == stt) or (stt == "leased" and o == "queued")
-                if not ok and stt == "dead" and o == "absent" and sum(1 for v in mstate.values() if v == "dead") > 2:
-                    ok = True          # dlq_retention max_depth 2 (the model run has no retention): the oldest dead messages beyond the cap are pruned
+                maybe_dead = 1 if (inflight is not None and inflight[0]["op"] in ("dead", "stalebatch")) else 0
+                if not ok and stt == "dead" and o == "absent" and sum(1 for v in mstate.values() if v == "dead") + maybe_dead > 2:
+                    ok = True          # dlq_retention max_depth 2 (the model run has no retention): the oldest dead messages beyond the cap are pruned;
+                    #                    an unacknowledged dead-letter call in flight at the crash may have taken effect and counts towards the cap
                 if not ok and inflight is not None:
                     ist = inflight[0]["op"]
                     ok = (ist == "dequeue" and stt == "queued" and o == "leased") or \
